@@ -203,5 +203,5 @@ Definition expected_rec : list (string * string) := [
 Definition expected_queue_drop : list string :=
   ["Closure"; "VectorV"; "HashMapV"; "HashSetV"; "CustomStruct"; "IterV"; "ReducerV"; "StreamV"; "ContinuationFunction";
    "ListV"; "Pair"; "BoxedIterator"; "SyntaxObject"; "Boxed"].
-Definition expected_drop_entry : list string := ["VectorV"; "HashMapV"; "CustomStruct"; "StreamV"; "Closure"].
+Definition expected_drop_entry : list string := ["VectorV"; "HashMapV"; "CustomStruct"; "StreamV"; "Closure"; "Pair"].
 Close Scope string_scope.
